@@ -29,7 +29,14 @@ static void desc_set(fb_desc *d, int kind, int pause, int pair) {
     d->type = (uint8_t)kind; d->pause = (uint8_t)pause;
     memcpy(d->src, pev_addr(PAIRS[pair][0], 0), 6); memcpy(d->dst, pev_addr(PAIRS[pair][1], 0), 6);
 }
+/* family 7: one descriptor, pause = idx (0..255), address pair n (0..8), kind = idx parity */
+static const uint8_t PAIRS7[9][2] = {{ST_S0, ST_PEER}, {ST_OWN, ST_S1}, {ST_S1, ST_BC}, {ST_ZERO, ST_ZERO}, {ST_BC, ST_BC}, {ST_OWN, ST_OWN}, {ST_PEER, ST_OWN}, {ST_M1, ST_M1}, {ST_BR, ST_S0}};
 static void build_list(int fam, int n, int idx) {
+    if (fam == 7) {
+        DLn = 1; declared = 1; DL[0].type = (uint8_t)(idx & 1); DL[0].pause = (uint8_t)idx;
+        memcpy(DL[0].src, pev_addr(PAIRS7[n][0], 0), 6); memcpy(DL[0].dst, pev_addr(PAIRS7[n][1], 0), 6);
+        return;
+    }
     if (fam == 6) { n = 1; idx = 0; fam = 0; }
     DLn = n; declared = (unsigned)n;
     for (int i = 0; i < n; i++) {
@@ -47,7 +54,7 @@ static void build_list(int fam, int n, int idx) {
 static void s_name(int ev, char *buf, size_t cap) {
     if (ev < EMIT_BASE) { pev_name(&SV[ev], buf, cap); return; }
     int fam, seqi, n, idx; emit_decode(ev, &fam, &seqi, &n, &idx);
-    static const char *fn[] = {"tuple", "all-Probe", "all-Train", "alternating", "position-sweep", "over-declared", "sequence-number-sweep"};
+    static const char *fn[] = {"tuple", "all-Probe", "all-Train", "alternating", "position-sweep", "over-declared", "sequence-number-sweep", "pause-and-address-sweep"};
     if (fam == 6) { snprintf(buf, cap, "Emit(from active mapper,seq=0x%04x,family=%s,n=1)", seq_of(ev), fn[fam]); return; }
     snprintf(buf, cap, "Emit(from active mapper,seq=0x%04x,family=%s,n=%d,idx=%d)", SEQS[seqi], fn[fam], n, idx);
 }
@@ -134,6 +141,7 @@ static void run_family_here(void) {
         for (int k = 0; k < 3; k++) { if (ns[k] > 200 && !vf_thorough() && k == 0) continue; for (int i = 0; i < ns[k]; i++) RUN(emit_code(4, seqi, ns[k], i)); }
         for (int o = 0; o < 5; o++) RUN(emit_code(5, seqi, F, o));
     }
+    if (heavy) for (int pr = 0; pr < 9; pr++) for (int pz = 0; pz < 256; pz++) RUN(emit_code(7, 1, pr, pz));      /* every pause value x 9 address pairs */
     if (heavy) for (int v = 1; v < 65536; v++) RUN(emit_code(6, 0, v / 8192, v % 8192));      /* every non-zero sequence number, once per (mapper, apparent address) class */
 #undef RUN
     free(s);
